@@ -35,6 +35,8 @@ def hist_scalar(rng):
     fill(rng, c, h)
     ups = h[n0:]
     h += [u.replace(' a ', ' b ', 1) for u in ups]
+    if rng.random() < 0.2:
+        h += gen.roundtrip_lines(rng, rng.choice('ab'))
     for _ in range(rng.randint(1, 5)):
         ln = gen.scalar_op_line(rng, c, inplace=True)
         h += ['nvalid a', ln, 'nvalid a', 'state a']
